@@ -266,6 +266,11 @@ pub struct History {
     progress: u64,
     /// slab slot of connections the router has registered but whose CONNACK the link has not collected yet
     slot_hint: BTreeMap<usize, usize>,
+    /// fault enumeration: end the session of actor 0 before operation `at` in flavour `flavour` (0..4)
+    pub inject: Option<(u64, u8)>,
+    pub ops_total: u64,
+    /// constructed with an explicit trigger set (the seed's own draw is skipped)
+    pub forced: bool,
 }
 
 fn qos_of(n: u8) -> QoS {
@@ -282,6 +287,7 @@ impl History {
         let s4 = S4::new(cfg);
         let mut model = Model::new(profile.max_connections);
         model.qos0_batch = max_out as usize;
+        let forced = force_triggers.is_some();
         let (triggers, triggered) = match force_triggers {
             Some(t) => (t, true),
             None => {
@@ -344,6 +350,9 @@ impl History {
             verbose: false,
             progress: 0,
             slot_hint: BTreeMap::new(),
+            inject: None,
+            ops_total: 0,
+            forced,
         }
     }
 
@@ -1516,9 +1525,24 @@ impl History {
             self.step(Step::Turn);
         }
         let ops = self.rng.range(self.profile.ops.0, self.profile.ops.1);
+        self.ops_total = ops;
+        let mut reconnect_at = None;
         for i in 0..ops {
             if self.done() {
                 break;
+            }
+            if let Some((at, flavour)) = self.inject {
+                if i == at {
+                    self.end_session(0, flavour);
+                    reconnect_at = Some(i + 1 + (at * 7 + flavour as u64) % 9);
+                }
+                if reconnect_at == Some(i) {
+                    // come back with clean session off; whatever was accepted meanwhile is owed
+                    let live = self.actors[0].link.map(|l| self.model.is_live(l)).unwrap_or(false);
+                    if !live || flavour == 3 {
+                        self.connect(0, Some(false));
+                    }
+                }
             }
             self.random_action();
             if self.profile.guarded_pair && i % 7 == 0 {
@@ -1541,6 +1565,40 @@ impl History {
         self.finish();
     }
 
+    /// End actor `a`'s session now, in one of the four ways the statement of C08 names:
+    /// 0 = DISCONNECT packet, 1 = link failure, 2 = router-initiated close (bad ack), 3 = take-over
+    pub fn end_session(&mut self, a: usize, flavour: u8) {
+        self.corner(match flavour {
+            0 => "end-by-disconnect-packet",
+            1 => "end-by-link-failure",
+            2 => "end-by-router-close",
+            _ => "end-by-takeover",
+        });
+        match flavour {
+            0 => {
+                self.disconnect_packet(a);
+            }
+            1 => {
+                self.link_drop(a);
+            }
+            2 => {
+                if let Some(link) = self.usable(a) {
+                    self.s4.push(link, Packet::PubAck(PubAck { pkid: 999, reason: PubAckReason::Success }, None));
+                    self.s4.notify(link);
+                    self.actors[a].poisoned = true;
+                    self.op("bad-packet", 21);
+                    let name = self.actors[a].name.clone();
+                    self.log(format!("{name} sends unsolicited PUBACK (forces a router-initiated close)"));
+                }
+            }
+            _ => {
+                if self.usable(a).is_some() {
+                    self.connect(a, Some(false));
+                }
+            }
+        }
+    }
+
     pub fn shape_hash(&self) -> u64 {
         fnv(&self.shape)
     }
@@ -1550,6 +1608,8 @@ impl History {
             "substrate": "S4",
             "profile": self.profile.name,
             "case_seed": self.seed,
+            "forced_trigger_free": self.forced,
+            "inject": self.inject.map(|(a, f)| vec![a, f as u64]),
             "config": self.config,
             "triggered": self.triggered,
             "triggers": format!("{:?}", self.triggers),
